@@ -1,5 +1,6 @@
 import Ledger.Proofs.SchedLocks
 import Ledger.Proofs.SchedHandles
+import Ledger.Proofs.SchedWitnesses
 
 /-!
 # C09 (schedule part) — the hash chain stays linear under concurrency (HASH_LOGS=SYNC)
@@ -63,14 +64,6 @@ theorem trigger_chains_from_last_visible (w w' : World) (s : Sid) (l ik hash tx 
       subst hw
       exact ⟨_, rfl, rfl, rfl, rfl⟩
 
-/-- tie (regenerated): in every SYNC write path of the real code the advisory lock is taken
-    immediately before the log INSERT, on the same transaction (or savepoint of it) -/
-def lockBeforeInsert : List (Kind × Handle) → Bool
-  | [] => true
-  | [(.insertLog, _)] => false
-  | (.insertLog, _) :: _ => false
-  | (.advLockLog, h) :: (.insertLog, h') :: r => h == h' && h != .conn && lockBeforeInsert r
-  | _ :: r => lockBeforeInsert r
 
 theorem advisory_lock_before_insert_in_generated_handles :
     lockBeforeInsert Generated.Handles.sendSyncBounded = true ∧
@@ -83,10 +76,6 @@ theorem advisory_lock_before_insert_in_generated_handles :
 
 /-! ## examples (tests): two SYNC writers on disjoint rows, every way round the lock -/
 
-def exA : Send := { l := 1, sync := true, src := 1, dst := 2, amt := 1, allow := .unbounded }
-def exB : Send := { l := 1, sync := true, src := 3, dst := 4, amt := 1, allow := .unbounded }
-def exWorld : World :=
-  { sess := fun s => if s = 1 then { prog := sendProg exA true } else if s = 2 then { prog := sendProg exB true } else {} }
 
 /-- B reaches the lock while A holds it: B waits, then chains from A's log -/
 example :
@@ -94,10 +83,6 @@ example :
       [(1, 0, true), (2, 1, true)] := by
   decide
 
-/-- the lock taken AFTER the insert (a breaking change of InsertLog): both logs chain from nothing -/
-def lateLock (q : Send) : Prog :=
-  .stmt .begin fun _ => .stmt (.updateVolumes [(q.src, -1), (q.dst, 1)]) fun _ => .stmt (.insertTx 1 0 none) fun o =>
-    .stmt (.insertLog 1 0 0 true none (headNat o)) fun _ => .stmt (.advLockLog 1) fun _ => .stmt .commit fun _ => .done {}
 
 example :
     let w : World := { sess := fun s => if s = 1 then { prog := lateLock exA } else if s = 2 then { prog := lateLock exB } else {} }
